@@ -194,7 +194,7 @@ func checkWitnesses(t *testing.T, id string) {
 				var e Envelope
 				json.Unmarshal(b, &e)
 				ev.SaveViolation(id, "fixed-regressed-"+f.ID, 0, "fixed finding returned: "+f.What, e)
-				t.Errorf("fixed finding %s returned: %s", f.ID, res)
+				t.Fatalf("fixed finding %s returned: %s", f.ID, res)
 			}
 		}
 	}
@@ -222,7 +222,7 @@ func checkRegressions(t *testing.T, id string) {
 			var e Envelope
 			json.Unmarshal(b, &e)
 			ev.SaveViolation(id, "regression-"+filepath.Base(m), 0, res, e)
-			t.Errorf("regression %s: %s", m, res)
+			t.Fatalf("regression %s: %s", m, res)
 		}
 	}
 }
